@@ -30,6 +30,11 @@ CLAIMS = {
   text="Structural necessary conditions of error containment: in every function of the interpreter package each error returned by a repository function is tested, returned or passed on, is not overwritten or abandoned on any path to a success return, and the non-nil branch does not return nil; every function that captures the VM control state restores it before each possibly-non-nil error return after the capture, and every caller of CallFunction has such a bracket, is an instruction's Execute (inside Run's bracket) or is tabled; CallResolved truncates the data stack before every error return after argument preparation; LoadExpressions appends compiled code only on the success branch; Run parks pc after restoring; every ParseTokens caller resets the parser first. Does not decide equivalence with a twin interpreter after a failure, nor compile-time side effects of a failed load.",
   note="Trusts go/ssa. Accepted idioms are in the checker (callee that only signals io.EOF; GetNextToken after a checked peek); 21 keyed exemptions with reasons in tables/C05.tsv.",
   ref="DESIGN.md §3 C05"),
+ "C20": dict(
+  technique="map-iteration classifier over the type-checked syntax tree + call-graph effect summary (symbol counter, package variables, printing); enumeration of script-written package variables",
+  text="Structural necessary condition of run-to-run determinism: every `range` over a Go map in the interpreter package and the command is order-independent by construction (keyed map writes, deletes, integer counts, idempotent flags, append followed by a sort before any other use, constant-answer predicates, no call that reaches the symbol counter / a package variable / printing), is unreachable from the entry points, or is tabled for the named categories only; package-level variables written on script-reachable paths are enumerated and frozen. Does not decide time, randomness, pointer printing or scheduling.",
+  note="Trusts go/types + go/ssa + the RTA graph. Nine loops are tabled with reasons and the categories they may show; two genuine findings are recorded in known_findings.json (error text of togo with several unknown fields; process-global struct registry).",
+  ref="DESIGN.md §3 C20"),
 }
 NA_DEFAULT="rules not built yet (build in progress; see DESIGN.md §7)"
 NA = {}
